@@ -130,10 +130,21 @@ def _look(c):
     return {"exc": "", "node": int(g.node_number(float(c["q"][0]), float(c["q"][1])))}
 
 
+def _gen(c):
+    """Integer-degree points in general position: the angular distances at a resolution of 10^-8 rad."""
+    from pyunicorn.core import GeoGrid
+    lat = enc.represent(c["lat"], c["case"])[0]
+    lon = enc.represent(c["lon"], c["case"] + "lon")[0]
+    g = GeoGrid(np.arange(3.0), lat, lon, silence_level=3)
+    D = np.asarray(g.angular_distance(), dtype=float)
+    return {"exc": "", "ang8": enc.arr(D, 10**8), "sym": int(np.array_equal(D, D.T))}
+
+
 def run_case(c):
     rec = dict(c)
     try:
-        rec["obs"] = {"geo": _geo, "euc": _euc, "rect": _rect, "look": _look, "rand": _rand}[c["blk"]](c)
+        rec["obs"] = {"geo": _geo, "euc": _euc, "rect": _rect, "look": _look, "rand": _rand, "gen": _gen,
+                      "glook": _look}[c["blk"]](c)
     except Exception as ex:
         rec["obs"] = {"exc": type(ex).__name__}
     return rec
